@@ -661,6 +661,10 @@ func strEq(a, b string) (eq bool, ok bool) {
 	if strings.HasPrefix(a, "global:") && strings.HasPrefix(b, "global:") {
 		return false, true
 	}
+	// a freshly built error value is never identical to a sentinel variable
+	if (a == "error" && strings.HasPrefix(b, "global:")) || (b == "error" && strings.HasPrefix(a, "global:")) {
+		return false, true
+	}
 	if strings.HasPrefix(a, "\"") && strings.HasPrefix(b, "\"") {
 		return false, true
 	}
